@@ -21,14 +21,25 @@ package load
 // capLo, C against capHi. With no completed bucket holding a pass the estimate
 // is undefined by the statement: only "capacity >= 1" is used for B, C is not
 // judged.
+//
+// Round 8: three further generated dimensions of a trace, none of which the
+// oracle depends on. Front: arrivals and completions reach the shedder directly
+// or through the real api/handler.SheddingHandler (c09_httpfront_test.go, an
+// external test package, so that it may import api/handler). Cpu: the reading
+// is injected by replacing systemOverloadChecker, or the production checker
+// stays and the reading is written into lib/stat (c09CpuUsage). NoLog:
+// DisableLog() is called first. Plus the UNSPECIFIED rule on SheddingStat at
+// the end of the file (panics/hangs only).
 
 import (
 	"fmt"
 	"math"
 	"sort"
+	"strings"
 	"sync/atomic"
 	"testing"
 	"time"
+	_ "unsafe" // go:linkname (the production CPU reading, see c09CpuUsage)
 
 	"github.com/gotid/god/lib/logx"
 	"github.com/gotid/god/lib/stat"
@@ -39,6 +50,56 @@ import (
 func init() {
 	logx.Disable()
 	stat.SetReporter(nil)
+}
+
+// The production CPU checker (the closure `stat.CpuUsage() >= cpuThreshold`) and the
+// variable behind stat.CpuUsage(). In "stat" mode (c09sCase.Cpu) the checker is NOT
+// replaced: the reading is written into lib/stat's own variable, so the comparison the
+// production code makes is the one that is judged. The variable is also written by
+// lib/stat's refresh goroutine (every 250 ms of REAL time, outside any bubble): every
+// Allow is therefore bracketed by two stat.CpuUsage() readings, and a case in which the
+// bracket does not show the generated reading on both sides is Excluded.
+var c09sProdChecker = systemOverloadChecker
+
+//go:linkname c09CpuUsage github.com/gotid/god/lib/stat.cpuUsage
+var c09CpuUsage int64
+
+// C09Front is the way arrivals and completions reach a shedder: directly
+// (Allow / Promise), or through a real integration (api/handler.SheddingHandler,
+// installed by the external test file of this unit, which may import api/handler).
+// Complete returns the report the shedder actually received (the statement does not
+// say which of Pass/Fail an integration chooses: the reference follows the observed one).
+type C09Front interface {
+	Arrive() (h any, admitted bool, fail string)
+	Complete(h any, pass bool) (reportedPass bool, fail string)
+}
+
+// C09NewHTTPFront is set by c09_httpfront_test.go (package load_test).
+var C09NewHTTPFront func(shd Shedder) C09Front
+
+type c09sDirect struct{ shd Shedder }
+
+func (d c09sDirect) Arrive() (any, bool, string) {
+	p, err := d.shd.Allow()
+	if err != nil {
+		if err != ErrServiceOverloaded {
+			return nil, false, fmt.Sprintf("Allow returned unexpected error %v", err)
+		}
+		return nil, false, ""
+	}
+	if p == nil {
+		return nil, false, "Allow returned neither a promise nor an error"
+	}
+	return p, true, ""
+}
+
+func (d c09sDirect) Complete(h any, pass bool) (bool, string) {
+	if pass {
+		h.(Promise).Pass()
+	} else {
+		h.(Promise).Fail()
+	}
+	return pass, ""
 }
 
 type c09sOp struct {
@@ -63,19 +124,22 @@ type c09sTwin struct {
 }
 
 type c09sCase struct {
-	Bk   int       `json:"bk"`             // buckets
-	BdMs int64     `json:"bd"`             // bucket duration in ms
-	BdNs int64     `json:"bdns,omitempty"` // bucket duration in ns (overrides BdMs)
-	Thr  int64     `json:"thr"`            // CPU threshold
-	Opt  string    `json:"opt,omitempty"`  // "" = all three options | rev = reversed order | none = no options (defaults)
-	Twin *c09sTwin `json:"twin,omitempty"`
-	EndP bool      `json:"endp"`
-	Ops  []c09sOp  `json:"ops"`
+	Bk    int       `json:"bk"`              // buckets
+	BdMs  int64     `json:"bd"`              // bucket duration in ms
+	BdNs  int64     `json:"bdns,omitempty"`  // bucket duration in ns (overrides BdMs)
+	Thr   int64     `json:"thr"`             // CPU threshold
+	Opt   string    `json:"opt,omitempty"`   // "" = all three options | rev = reversed order | none = no options (defaults)
+	Front string    `json:"front,omitempty"` // "" = Allow/Promise called directly | http = through api/handler.SheddingHandler
+	Cpu   string    `json:"cpu,omitempty"`   // "" = reading injected through systemOverloadChecker | stat = production checker, reading written into lib/stat
+	NoLog bool      `json:"nolog,omitempty"` // DisableLog() called before the shedders are built
+	Twin  *c09sTwin `json:"twin,omitempty"`
+	EndP  bool      `json:"endp"`
+	Ops   []c09sOp  `json:"ops"`
 }
 
 type c09sFlight struct {
 	start int64
-	p     Promise
+	h     any // handle of the front (direct: the Promise)
 }
 
 type c09sAgg struct {
@@ -93,6 +157,7 @@ type c09sModel struct {
 	thr      int64
 	shd      Shedder
 	sh       *adaptiveShedder
+	front    C09Front
 	lastOver int64
 	ewma     float64
 	flights  []c09sFlight
@@ -203,19 +268,59 @@ func c09sInterp(t *testing.T, c c09sCase) (v kit.Verdict) {
 		v.Excluded = true
 		return v
 	}
+	switch {
+	case c.Front != "" && c.Front != "http", c.Cpu != "" && c.Cpu != "stat":
+		v.Excluded = true
+		return v
+	case c.Front == "http" && C09NewHTTPFront == nil:
+		v.Excluded = true // the external test file of this unit is not linked in
+		return v
+	}
 	var fail string
 	classes := map[string]bool{}
 	rejects, admitsOver := 0, 0
+	excluded := false
 	saved := systemOverloadChecker
 	defer func() { systemOverloadChecker = saved }()
 	enabled.Set(true)
+	if c.NoLog {
+		// a legal call of the embedding service (it silences the per-minute statistics
+		// line): no effect on any decision
+		DisableLog()
+		defer logEnabled.Set(true)
+		classes["log-disabled"] = true
+	}
+	if c.Cpu == "stat" {
+		defer atomic.StoreInt64(&c09CpuUsage, 0)
+		classes["cpu-production-checker"] = true
+	}
+	if c.Front == "http" {
+		classes["front-http"] = true
+	}
 
 	res := kit.Bubble(t, func() {
 		var reading int64
 		checkerCalls := 0
 		systemOverloadChecker = func(thr int64) bool {
 			checkerCalls++
+			if c.Cpu == "stat" {
+				return c09sProdChecker(thr) // the production comparison on lib/stat's own variable
+			}
 			return reading >= thr
+		}
+		// pinReading makes lib/stat report the generated reading (stat mode); false when
+		// lib/stat's refresh goroutine keeps interfering
+		pinReading := func() bool {
+			if c.Cpu != "stat" {
+				return true
+			}
+			for i := 0; i < 4; i++ {
+				if stat.CpuUsage() == reading {
+					return true
+				}
+				atomic.StoreInt64(&c09CpuUsage, reading)
+			}
+			return stat.CpuUsage() == reading
 		}
 		start := time.Now()
 		var el int64
@@ -240,7 +345,11 @@ func c09sInterp(t *testing.T, c c09sCase) (v kit.Verdict) {
 				fail = fmt.Sprintf("NewAdaptiveShedder returned %T", shd)
 				return nil
 			}
-			return &c09sModel{name: name, bk: int64(bk), bd: bd, thr: thr, shd: shd, sh: sh, lastOver: -1, aggs: map[int64]*c09sAgg{}}
+			var front C09Front = c09sDirect{shd}
+			if c.Front == "http" {
+				front = C09NewHTTPFront(shd)
+			}
+			return &c09sModel{name: name, bk: int64(bk), bd: bd, thr: thr, shd: shd, sh: sh, front: front, lastOver: -1, aggs: map[int64]*c09sAgg{}}
 		}
 		ms := []*c09sModel{mk("main", c.Bk, bd0, c.Thr, c.Opt)}
 		if ms[0] == nil {
@@ -285,7 +394,15 @@ func c09sInterp(t *testing.T, c c09sCase) (v kit.Verdict) {
 				classes["data-expired-or-current-only"] = true
 			}
 			before := checkerCalls
-			p, err := m.shd.Allow()
+			if !pinReading() {
+				excluded = true
+				return false
+			}
+			h, admitted, ferr := m.front.Arrive()
+			if c.Cpu == "stat" && stat.CpuUsage() != reading {
+				excluded = true // the refresh goroutine of lib/stat wrote during the call: the reading the shedder saw is unknown
+				return false
+			}
 			if checkerCalls == before {
 				classes["cpu-not-read"] = true
 			}
@@ -293,11 +410,15 @@ func c09sInterp(t *testing.T, c c09sCase) (v kit.Verdict) {
 				return fmt.Sprintf("%s shedder (%d buckets of %dns, threshold %d) at +%dns cpu=%d lastOverloadSeen=%d in-flight=%d smoothed=%.6f capacity=[%d,%d] data=%v",
 					m.name, m.bk, m.bd, m.thr, el, reading, m.lastOver, flying, m.ewma, capLo, capHi, vis)
 			}
-			if err != nil {
-				if err != ErrServiceOverloaded {
-					fail = fmt.Sprintf("%s: Allow returned unexpected error %v", what(), err)
-					return false
-				}
+			if strings.HasPrefix(ferr, "EXCLUDE") {
+				excluded = true
+				return false
+			}
+			if ferr != "" {
+				fail = fmt.Sprintf("%s: %s; %s", what(), ferr, state())
+				return false
+			}
+			if !admitted {
 				rejects++
 				classes["reject"] = true
 				if m.name == "twin" {
@@ -359,14 +480,21 @@ func c09sInterp(t *testing.T, c c09sCase) (v kit.Verdict) {
 			if over {
 				m.lastOver = el
 			}
-			m.flights = append(m.flights, c09sFlight{start: el, p: p})
+			m.flights = append(m.flights, c09sFlight{start: el, h: h})
 			return true
 		}
-		complete := func(m *c09sModel, i int, pass bool) {
+		complete := func(m *c09sModel, i int, pass bool) bool {
 			f := m.flights[i]
 			m.flights = append(m.flights[:i], m.flights[i+1:]...)
-			if pass {
-				f.p.Pass()
+			reported, ferr := m.front.Complete(f.h, pass)
+			if ferr != "" {
+				fail = fmt.Sprintf("completion of the request admitted at +%dns by the %s shedder: %s", f.start, m.name, ferr)
+				return false
+			}
+			if reported != pass {
+				classes["front-reported-other-than-asked"] = true
+			}
+			if reported {
 				lat := el - f.start
 				a := m.aggs[el/m.bd]
 				if a == nil {
@@ -388,10 +516,10 @@ func c09sInterp(t *testing.T, c c09sCase) (v kit.Verdict) {
 					classes["latency>1s"] = true
 				}
 			} else {
-				f.p.Fail()
 				classes["fail-reported"] = true
 			}
 			m.ewma = m.ewma*0.9 + float64(len(m.flights))*0.1
+			return true
 		}
 		completions := 0
 		for i, o := range c.Ops {
@@ -400,6 +528,9 @@ func c09sInterp(t *testing.T, c c09sCase) (v kit.Verdict) {
 			switch o.K {
 			case "cpu":
 				reading = o.V
+				if o.V >= int64(time.Hour) {
+					classes["reading-huge"] = true
+				}
 			case "arr":
 				for j := 0; j < o.N; j++ {
 					j := j
@@ -413,9 +544,8 @@ func c09sInterp(t *testing.T, c c09sCase) (v kit.Verdict) {
 						classes["done-noop"] = true
 						break
 					}
-					complete(m, o.I%len(m.flights), o.P)
 					completions++
-					if !checkD(what) {
+					if !complete(m, o.I%len(m.flights), o.P) || !checkD(what) {
 						return
 					}
 				}
@@ -423,9 +553,8 @@ func c09sInterp(t *testing.T, c c09sCase) (v kit.Verdict) {
 				for j := 0; j < o.N; j++ {
 					j := j
 					if len(m.flights) > 0 {
-						complete(m, 0, o.P)
 						completions++
-						if !checkD(what) {
+						if !complete(m, 0, o.P) || !checkD(what) {
 							return
 						}
 					}
@@ -446,9 +575,8 @@ func c09sInterp(t *testing.T, c c09sCase) (v kit.Verdict) {
 						el += o.D
 					}
 					if len(m.flights) > 0 {
-						complete(m, 0, o.P || j%7 != 0)
 						completions++
-						if !checkD(what) {
+						if !complete(m, 0, o.P || j%7 != 0) || !checkD(what) {
 							return
 						}
 					}
@@ -470,8 +598,7 @@ func c09sInterp(t *testing.T, c c09sCase) (v kit.Verdict) {
 		// every admitted request reports: the counter must return to zero
 		for _, m := range ms {
 			for len(m.flights) > 0 {
-				complete(m, len(m.flights)-1, c.EndP)
-				if !checkD("final completion") {
+				if !complete(m, len(m.flights)-1, c.EndP) || !checkD("final completion") {
 					return
 				}
 			}
@@ -512,6 +639,10 @@ func c09sInterp(t *testing.T, c c09sCase) (v kit.Verdict) {
 	sort.Strings(v.Classes)
 	if fail != "" {
 		v.Fail = fail
+	} else if excluded {
+		v.Excluded = true
+		v.NonTrivial = false
+		v.Classes = []string{"excluded-cpu-reading-disturbed"}
 	} else if !res.OK() {
 		v.Fail = "bubble: " + res.String()
 	}
@@ -543,6 +674,9 @@ func c09sGen(rt *rapid.T) c09sCase {
 		Opt:  rapid.SampledFrom([]string{"", "", "", "rev", "none"}).Draw(rt, "opt"),
 		EndP: rapid.Bool().Draw(rt, "endp"),
 	}
+	c.Front = rapid.SampledFrom([]string{"", "", "", "http"}).Draw(rt, "front")
+	c.Cpu = rapid.SampledFrom([]string{"", "", "", "stat"}).Draw(rt, "cpumode")
+	c.NoLog = rapid.IntRange(0, 7).Draw(rt, "nolog") == 0
 	if c.Opt == "none" {
 		c.Bk, c.BdNs, c.Thr = defaultBuckets, int64(defaultWindow)/defaultBuckets, defaultCpuThreshold
 	}
@@ -573,6 +707,9 @@ func c09sGen(rt *rapid.T) c09sCase {
 	var reading int64
 	storms := 0
 	stormy := rapid.IntRange(0, 39).Draw(rt, "stormy") == 0 // long-lived instance: rare, it costs 10^3..10^4 cycles
+	if c.Front == "http" {
+		stormy = false // a goroutine and a quiescence wait per request: 10^4 cycles belong to the direct front
+	}
 	// optional warm-up: some passes in a completed bucket, so that the capacity is estimated from data
 	for ti, in := range insts {
 		for w := rapid.IntRange(0, 2).Draw(rt, "warm"); w > 0; w-- {
@@ -859,4 +996,119 @@ func TestVerif_C09_nop_shedder(t *testing.T) {
 			}
 			return v
 		})
+}
+
+// SheddingStat (the per-minute statistics line of the REST/RPC integrations). The
+// statement does not talk about these counters or the log line: UNSPECIFIED. The rule
+// only runs what a server that lives longer than a minute runs - counters bumped by
+// requests, then the minute tick, with the statistics log enabled or disabled
+// (DisableLog), busy and idle minutes, with and without drops - and judges panics and
+// hangs, nothing else. Mode "loop" calls the loop body synchronously with a closed
+// one-tick channel (a panic is caught as a verdict); mode "run" builds the object with
+// NewSheddingStat inside a bubble and lets virtual minutes pass (its goroutine is
+// immortal: the leak at bubble exit is expected and ignored).
+type c09tCase struct {
+	Mode   string   `json:"mode"` // loop | run
+	NoLog  bool     `json:"nolog,omitempty"`
+	Rounds [][3]int `json:"rounds"` // per minute: requests, passes, drops counted before the tick
+}
+
+func c09tInterp(t *testing.T, c c09tCase) (v kit.Verdict) {
+	if len(c.Rounds) > 16 || c.Mode != "loop" && c.Mode != "run" {
+		v.Excluded = true
+		return v
+	}
+	for _, r := range c.Rounds {
+		for _, n := range r {
+			if n < 0 || n > 1000 {
+				v.Excluded = true
+				return v
+			}
+		}
+	}
+	if c.NoLog {
+		DisableLog()
+		v.Classes = append(v.Classes, "log-disabled")
+	}
+	defer logEnabled.Set(true)
+	bump := func(st *SheddingStat, r [3]int) {
+		for i := 0; i < r[0]; i++ {
+			st.IncrTotal()
+		}
+		for i := 0; i < r[1]; i++ {
+			st.IncrPass()
+		}
+		for i := 0; i < r[2]; i++ {
+			st.IncrDrop()
+		}
+		switch {
+		case r[0] == 0 && r[1] == 0 && r[2] == 0:
+			v.Classes = append(v.Classes, "idle-minute")
+		case r[2] > 0:
+			v.Classes = append(v.Classes, "minute-with-drops")
+		}
+	}
+	v.Classes = append(v.Classes, "mode-"+c.Mode)
+	v.NonTrivial = len(c.Rounds) > 1
+	// (the synchronous pass also precedes mode "run": a panic there would be raised in the
+	// object's own goroutine and take the whole test process down)
+	{
+		st := &SheddingStat{name: "c09"}
+		for i, r := range c.Rounds {
+			bump(st, r)
+			var pv any
+			func() {
+				defer func() { pv = recover() }()
+				ch := make(chan time.Time, 1)
+				ch <- time.Time{}
+				close(ch)
+				st.loop(ch)
+			}()
+			if pv != nil {
+				return v.Failf("SheddingStat: the per-minute statistics loop panicked at minute %d (requests %d, passes %d, drops %d, log disabled %v): %v", i, r[0], r[1], r[2], c.NoLog, pv)
+			}
+		}
+		if c.Mode == "loop" {
+			return v
+		}
+	}
+	res := kit.Bubble(t, func() {
+		st := NewSheddingStat("c09")
+		for _, r := range c.Rounds {
+			bump(st, r)
+			time.Sleep(time.Minute + time.Second)
+		}
+	})
+	if res.Hang || res.Panic != "" {
+		v.Fail = "SheddingStat run: bubble: " + res.String()
+	}
+	return v
+}
+
+func TestVerif_C09_shedding_stat(t *testing.T) {
+	kit.Run(t, "C09", "shedding-stat-unspecified", kit.Opts{Quick: 300, Thorough: 4800},
+		func(rt *rapid.T) c09tCase {
+			c := c09tCase{
+				Mode:  rapid.SampledFrom([]string{"loop", "loop", "loop", "run"}).Draw(rt, "mode"),
+				NoLog: rapid.IntRange(0, 2).Draw(rt, "nolog") == 0,
+			}
+			for n := rapid.IntRange(1, 5).Draw(rt, "n"); n > 0; n-- {
+				var r [3]int
+				switch rapid.SampledFrom([]string{"idle", "busy", "busy", "drops", "only-drops"}).Draw(rt, "kind") {
+				case "busy":
+					r[0] = rapid.IntRange(1, 200).Draw(rt, "total")
+					r[1] = r[0]
+				case "drops":
+					r[0] = rapid.IntRange(2, 200).Draw(rt, "total")
+					r[2] = rapid.IntRange(1, r[0]-1).Draw(rt, "drop")
+					r[1] = r[0] - r[2]
+				case "only-drops":
+					r[0] = rapid.IntRange(1, 200).Draw(rt, "total")
+					r[2] = r[0]
+				}
+				c.Rounds = append(c.Rounds, r)
+			}
+			return c
+		},
+		func(c c09tCase) kit.Verdict { return c09tInterp(t, c) })
 }
